@@ -192,6 +192,7 @@ func (tl *T0x0200LocationItem) String() string {
 }
 
 func (a *AlarmSignDetails) parse(alarmSign uint32) {
+	*a = AlarmSignDetails{} // 重复使用同一个对象解析时 上一次的标志不能留下来
 	data := fmt.Sprintf("%.32b", alarmSign)
 	if data[31] == '1' {
 		a.EmergencyAlarm = true
@@ -329,6 +330,7 @@ func (a *AlarmSignDetails) String() string {
 }
 
 func (s *StatusSignDetails) parse(statusSign uint32) {
+	*s = StatusSignDetails{} // 重复使用同一个对象解析时 上一次的标志不能留下来
 	data := fmt.Sprintf("%.32b", statusSign)
 	if data[31] == '1' {
 		s.ACC = true
